@@ -661,6 +661,7 @@ FOCUS = {
     "wordlists": ("wordlist", "wordlist", "wordlist", "mnemonic"),
     "tables": ("ellswift", "fresh-curve", "mult-Q", "prep-mult", "double-mult", "multi-mult", "mult-other-ec", "mult-G", "derive-pub", "second-gen", "b58decode", "electrum-old"),
     "musig": ("musig-values", "musig-verify", "musig-verify"),
+    "signers": ("dsa-signer", "ssa-signer", "dsa-signer", "ssa-signer", "dsa", "ssa"),
 }
 
 
@@ -679,7 +680,7 @@ def catalogue(ctx: Ctx, sh: Shared, wl: Any, k: int, only: tuple[str, ...] | Non
     kinds = [
         "mult-G", "mult-Q", "prep-mult", "double-mult", "multi-mult", "mult-other-ec",
         "derive-prv", "derive-pub", "b58decode", "wordlist", "mnemonic", "second-gen",
-        "electrum-old", "address", "dsa", "ssa", "musig-values", "musig-verify", "merkle",
+        "electrum-old", "address", "dsa", "ssa", "musig-values", "musig-verify", "merkle", "dsa-signer", "ssa-signer",
         "fresh-curve", "fresh-curve", "fresh-curve-dsa", "curve-id-reuse", "ellswift",
     ]
     if only is not None:
@@ -757,6 +758,21 @@ def catalogue(ctx: Ctx, sh: Shared, wl: Any, k: int, only: tuple[str, ...] | Non
             m = ch.nbytes(32, "call.m")
             aux = ch.nbytes(32, "call.aux")
             fn = lambda m=m, aux=aux: (ssa.sign_(m, sh.q, aux).serialize(), ssa.verify_(m, gk.xonly(sh.q), ssa.sign_(m, sh.q, aux)))  # noqa: E731
+        elif kind in ("dsa-signer", "ssa-signer"):
+            # a signer object built, used and wiped inside the call: which arm it lives on is decided while it is built
+            m = ch.nbytes(32, "call.m")
+            aux = ch.nbytes(32, "call.aux")
+            checked = bool(ch.draw(2, "call.verify"))
+
+            def fn(m: bytes = m, aux: bytes = aux, checked: bool = checked, kind: str = kind) -> Any:
+                if kind == "dsa-signer":
+                    with dsa.Signer(sh.q) as signer:
+                        sig = signer.sign_(m, verify=checked)
+                    return (sig.serialize() if hasattr(sig, "serialize") else bytes(sig), dsa.verify_(m, sh.Q, sig))
+                with ssa.Signer(sh.q) as signer:
+                    sig = signer.sign_(m, aux, verify=checked)
+                return (sig.serialize() if hasattr(sig, "serialize") else bytes(sig), ssa.verify_(m, gk.xonly(sh.q), sig))
+
         elif kind == "musig-values":
             fn = lambda: (lambda v: (v.Q, v.b, v.R, v.e, v.gacc, v.tacc))(musig2.session_values(sh.m_session))  # noqa: E731
         elif kind == "musig-verify":
@@ -924,7 +940,7 @@ def _threads(ctx: Ctx, rng: SimRng) -> None:
     _signature_check(ctx)
     sh = Shared(ctx)
     n_thr = 2 + ch.draw(3, "nthreads")
-    focus = ch.pick(["wordlists", "tables", "musig", "mixed"], "focus")
+    focus = ch.pick(["wordlists", "tables", "musig", "mixed", "signers"], "focus")
     undo_shim = st.patch_attr(mn, "threading", ThreadingShim())
     # the process-wide singletons: same cooperative lock, and cold for this run
     from btclib.mnemonic import electrum as el  # noqa: PLC0415
@@ -1026,10 +1042,12 @@ def _threads(ctx: Ctx, rng: SimRng) -> None:
 
         for t in range(n_thr):
             sched.spawn(f"T{t}", worker(t))
-        chaos = ch.draw(2, "chaos")
+        chaos = ch.draw(2, "chaos") or focus == "signers"
         if chaos:
             n_chaos = 1 + ch.draw(5, "nchaos")
             acts = [ch.draw(3, "chaos.act") for _ in range(n_chaos)]
+            if focus == "signers":
+                acts = [0] * (2 * n_chaos)  # the switch moves while signers are being built
 
             def chaos_body() -> None:
                 for a in acts:
